@@ -32,7 +32,7 @@ package middleware
 
 //@ func withTrace
 //@   property C19
-//@   requires ctx != nil && opts != nil
+//@   requires ctx != nil && opts != nil && envReadable
 //@   requires middleware.TraceIDKey != middleware.TraceSpanIDKey && middleware.TraceIDKey != middleware.TraceParentSpanIDKey && middleware.TraceSpanIDKey != middleware.TraceParentSpanIDKey
 //@   let md0 = ptr(metadata.MD, mdOf(ctx))
 //@   let inT = ite(mdHas(ctx), old(mdFirst(md0, "trace-id")), "")
